@@ -11,7 +11,7 @@ growing `ρ` existentially: `TIx ρ0 part Γ w` = "for some `ρ ≥ ρ0`, `TI ρ
 (typings of the key objects, materials and ciphertexts the running code holds) are true".
 -/
 set_option linter.unusedVariables false
-namespace AsherahVerif.Env
+namespace AsherahVerif.Env.Res
 
 /-- how a key material came into being. -/
 inductive Role | data | intermediate (partition : Nat) | system
@@ -680,4 +680,4 @@ theorem TIx.row_pure {w : World} {r : Row} {kid : KeyId} (h : TIx ρ0 part Γ w)
   exact ⟨this.2, this.1.2⟩
 
 end prim
-end AsherahVerif.Env
+end AsherahVerif.Env.Res
